@@ -1,7 +1,95 @@
 import Driver.Util
-/- Sub-protocol `C18`: not built yet. -/
+import ZxVerif.Spec.Ay
+import ZxVerif.Model.AyFilter
+/-
+Sub-protocol `C18`: the integer core of AymPrecise, the chip-definition spec, the ZXAyChip file.
+All numbers hexadecimal unless said otherwise.
+  new <ym 0|1> <mode idx>      -> ok <32 DAC values, decimal, comma separated> <pan2 A> <pan2 B> <pan2 C>
+  w <addr> <val>               -> ok                       (AymBackend::write_register)
+  t                            -> <outA> <outB> <outC> <toneA><toneB><toneC> <tcA> <tcB> <tcC> <lfsr> <nc> <level> <ec> <seg>
+  tn <count>                   -> same line, after <count> ticks (outs of the last tick)
+  spec env <shape> <len>       -> levels of the first <len> steps, two steps at the turns (comma separated)
+  spec envok <shape> <levels>  -> 1 | 0      the adjudicating relation (one or two steps at the turns)
+  spec tone <tp>               -> ticks between toggles
+  spec noise <np>              -> ticks between LFSR clocks
+  spec lfsr <x>                -> next 17-bit LFSR value
+  spec idx <r7> <volreg> <ch> <tone> <noise> <level>  -> DAC index
+  spec place <mode> <ch>       -> <left gain² in halves> <right gain² in halves>
+  spec fir                     -> the FIR table of the ℚ-model: j:c_j·10^22 (decimal), comma separated, incl. 96:centre
+  chip reset | chip sel <v> | chip w <v>   -> ok
+  chip r <value the real port returned>    -> <model> <spec last written> <accepted 0|1>
+-/
 namespace Driver.C18
+open ZxVerif.Ay
 
-def proto : Driver.Proto := { σ := Unit, init := (), handle := fun s _ => (s, "unimplemented") }
+structure St where
+  ay : Ay := {}
+  chip : Chip := {}
+  file : Spec.RegFile := {}
+
+def natHex (n : Nat) : String :=
+  if n = 0 then "0" else
+  let rec go (fuel n : Nat) (acc : List Char) : List Char :=
+    match fuel with
+    | 0 => acc
+    | fuel + 1 => if n = 0 then acc else go fuel (n / 16) (hexChar (n % 16) :: acc)
+  String.ofList (go 64 n [])
+
+/-- value / 10^14 as a decimal literal with 14 fractional digits -/
+def dacString (v : Nat) : String :=
+  let ip := v / dacScale
+  let fp := toString (v % dacScale)
+  s!"{ip}." ++ String.ofList (List.replicate (14 - fp.length) '0') ++ fp
+
+def modeOf (i : Nat) : Mode := Mode.all.getD i .mono
+
+def stateLine (s : Ay) (o : Nat × Nat × Nat) : String :=
+  s!"{natHex o.1} {natHex o.2.1} {natHex o.2.2} {bit s.ch0.tone}{bit s.ch1.tone}{bit s.ch2.tone} " ++
+  s!"{natHex s.ch0.toneCounter} {natHex s.ch1.toneCounter} {natHex s.ch2.toneCounter} " ++
+  s!"{natHex s.noise.lfsr.toNat} {natHex s.noise.counter} {natHex s.env.level} {natHex s.env.counter} {bit s.env.segment}"
+
+def tickN : Nat → Ay → (Nat × Nat × Nat) → Ay × (Nat × Nat × Nat)
+  | 0, s, o => (s, o)
+  | n + 1, s, _ => let r := s.tick; tickN n r.1 r.2
+
+def natList (s : String) : List Nat :=
+  if s = "-" then [] else (s.splitOn ",").map hexNatD
+
+def handle (s : St) : List String → St × String
+  | ["new", ym, mode] =>
+    let m := modeOf (hexNatD mode)
+    let p := pan2 m
+    ({ s with ay := Ay.init },
+     s!"ok {",".intercalate ((dacTable (boolD ym)).map dacString)} {p.1} {p.2.1} {p.2.2}")
+  | ["w", a, v] => ({ s with ay := s.ay.writeRegister (bv8 a) (bv8 v) }, "ok")
+  | ["t"] =>
+    let r := s.ay.tick
+    ({ s with ay := r.1 }, stateLine r.1 r.2)
+  | ["tn", n] =>
+    let r := tickN (hexNatD n) s.ay (0, 0, 0)
+    ({ s with ay := r.1 }, stateLine r.1 r.2)
+  | ["spec", "env", sh, len] =>
+    (s, ",".intercalate (((List.range (hexNatD len)).map (Spec.envLevel 2 (hexNatD sh))).map natHex))
+  | ["spec", "envok", sh, levels] => (s, bit (Spec.envAccepts (hexNatD sh) (natList levels)))
+  | ["spec", "tone", tp] => (s, natHex (Spec.eff (hexNatD tp % 4096)))
+  | ["spec", "noise", np] => (s, natHex (2 * Spec.eff (hexNatD np % 32)))
+  | ["spec", "lfsr", x] => (s, natHex (Spec.lfsr17 (BitVec.ofNat 17 (hexNatD x))).toNat)
+  | ["spec", "idx", r7, vol, ch, tone, noise, lvl] =>
+    (s, natHex (Spec.channelIndex (bv8 r7) (bv8 vol) (hexNatD ch) (boolD tone) (boolD noise) (hexNatD lvl)))
+  | ["spec", "place", mode, ch] =>
+    let g := Spec.gains2 (Spec.placement (modeOf (hexNatD mode)) (hexNatD ch))
+    (s, s!"{g.1} {g.2}")
+  | ["spec", "fir"] =>
+    (s, ",".intercalate ((Filter.firPairs.map fun p => s!"{p.1}:{p.2}") ++ [s!"96:{Filter.firCenter}"]))
+  | ["chip", "reset"] => ({ s with chip := {}, file := {} }, "ok")
+  | ["chip", "sel", v] =>
+    ({ s with chip := s.chip.selectReg (bv8 v), file := s.file.step (.select (bv8 v)) }, "ok")
+  | ["chip", "w", v] =>
+    ({ s with chip := s.chip.write (bv8 v), file := s.file.step (.write (bv8 v)) }, "ok")
+  | ["chip", "r", got] =>
+    (s, s!"{hex8 s.chip.read} {hex8 (s.file.last s.file.selected)} {bit (Spec.readAccepts s.file (bv8 got))}")
+  | _ => (s, "bad-op")
+
+def proto : Driver.Proto := { σ := St, init := {}, handle := handle }
 
 end Driver.C18
